@@ -208,14 +208,19 @@ func buildC01(cfg *mon.Config) []*mon.Sub {
 		Exec: c01Exec, Sample: c01Sample,
 	}
 	long := &mon.Sub{
-		Name: "long-chains-and-calls", Rule: "for every n in 1..70: a right-nested and a left-nested chain of n operands over + - * (integers), a call of Sum, Max and Array with n arguments, an Array of n elements indexed at its last element, and n nested parentheses / nested calls; checked like every other tree (program and value); a case is one printing",
+		Name: "long-chains-and-calls", Rule: "for every n in 1..70 and 100, 129, 200, 257, 300, 513, 1025: n index operations and n two-argument calls side by side; a right-nested and a left-nested chain of n operands over + - * (integers), a call of Sum, Max and Array with n arguments, an Array of n elements indexed at its last element, and n nested parentheses / nested calls; checked like every other tree (program and value); a case is one printing",
 		Exhaustive: true, DistinctByGen: true, Floor: 100,
 		Gen: func(emit func(string)) {
-			e := &env{names: []string{"a", "b"}, vals: []Val{vInt(7), vInt(5)}}
+			e := &env{names: []string{"a", "b", "arr"}, vals: []Val{vInt(7), vInt(5), vArr(vInt(2), vInt(3), vInt(5))}}
 			ee := encEnv(e)
 			lit := func(i int) *model.Node { return leafConst(strconv.Itoa(2 + i%9)) }
 			ops := []string{"+", "-", "*"}
+			sizes := []int{}
 			for n := 1; n <= 70; n++ {
+				sizes = append(sizes, n)
+			}
+			sizes = append(sizes, 100, 129, 200, 257, 300, 513, 1025)
+			for _, n := range sizes {
 				right, left := lit(n), lit(0)
 				for i := n - 1; i >= 1; i-- {
 					right = binNode(ops[i%3], lit(i), right)
@@ -231,7 +236,15 @@ func buildC01(cfg *mon.Config) []*mon.Sub {
 				for i := 0; i < n; i++ {
 					nest = &model.Node{Op: "call", Lit: "Abs", Kids: []*model.Node{unNode("neg", nest)}}
 				}
-				trees := []*model.Node{right, left,
+				idx := &model.Node{Op: "index", Kids: []*model.Node{leafVar("arr"), leafConst("0")}}
+				for i := 1; i < n; i++ {
+					idx = binNode("+", idx, &model.Node{Op: "index", Kids: []*model.Node{leafVar("arr"), leafConst(strconv.Itoa(i % 3))}})
+				}
+				calls := &model.Node{Op: "call", Lit: "Max", Kids: []*model.Node{lit(0), lit(1)}}
+				for i := 1; i < n; i++ {
+					calls = binNode("-", calls, &model.Node{Op: "call", Lit: "Max", Kids: []*model.Node{lit(i), lit(i + 1)}})
+				}
+				trees := []*model.Node{right, left, idx, calls,
 					{Op: "call", Lit: "Sum", Kids: append(append([]*model.Node{}, args...), leafVar("b"))},
 					{Op: "call", Lit: "Max", Kids: append(append([]*model.Node{}, args...), leafVar("a"))},
 					{Op: "index", Kids: []*model.Node{{Op: "call", Lit: "Array", Kids: args}, leafConst(strconv.Itoa(n - 1))}},
